@@ -169,6 +169,14 @@ func (g *vcgen) siteEnv(clauses []Clause) *cenv {
 	return &env
 }
 
+// totallen: the sum of the lengths of the elements of a []string, as a function of the slice's backing row, offset and
+// length (uninterpreted; the instances that are true of sums are emitted at append and where the function is used)
+func (g *vcgen) totalLenFun() string {
+	name := q("totallen.str")
+	g.declareFun(name, []string{"(Array Int String)", "Int", "Int"}, "Int")
+	return name
+}
+
 func (g *vcgen) cardFun(keySort string) string {
 	name := q("card." + strings.Trim(keySort, "|"))
 	g.declareFun(name, []string{fmt.Sprintf("(Array %s Bool)", keySort)}, "Int")
